@@ -140,7 +140,7 @@ def run(ctx):
     for fmt in ("klmGac", "podGac") + (("klmLac", "podLac") if ctx.thorough else ()):
         plan += [(fmt, 14, "single-first", True), (fmt, 14, "single-last", False), (fmt, 14, "single-mid", True)]
     if ctx.thorough:
-        for k in range(12):
+        for k in range(60):
             plan += [("klmGac", 200, "random", bool(k % 2)), ("podGac", 200, "random", bool(k % 2)),
                      ("klmLac", 64, "random", bool(k % 2)), ("podLac", 64, "random", bool(k % 2))]
     for k, (fmt, n, kind, interp) in enumerate(plan):
